@@ -419,3 +419,16 @@ Proof.
   destruct p as [p|p|]; try reflexivity;
   repeat (destruct p as [p|p|]; try reflexivity; try congruence).
 Qed.
+
+(* what was set is what is looked up, directly *)
+Lemma set_then_lookup kf g k v :
+  wf_kf kf -> k <> [] ->
+  lookup_value (fst (set_value kf g (Some k) (SetTo v))) g (Some k) = inr (Some v).
+Proof.
+  intros Hwf Hk.
+  pose proof (set_value_refines kf (abs kf) g k v Hwf (refines_abs kf) Hk) as H.
+  destruct (set_value kf g (Some k) (SetTo v)) as [kf' rc]. destruct H as (_ & _ & Hr). simpl.
+  rewrite (lookup_value_refines kf' _ g (Some k) Hr).
+  unfold spec_lookup. destruct k as [|c k]; [congruence|].
+  unfold sp_set. simpl. rewrite str_eqb_refl. now rewrite al_get_set_same.
+Qed.
